@@ -543,6 +543,50 @@ class Repo:
             if isinstance(expr.op, ast.Pow):
                 return l ** r
             raise KeyError(src(expr))
+        if isinstance(expr, ast.Dict) and all(k is not None for k in expr.keys):
+            return {self.const_value(m, k, depth + 1): self.const_value(m, v, depth + 1) for k, v in zip(expr.keys, expr.values)}
+        if isinstance(expr, ast.Set):
+            return frozenset(self.const_value(m, e, depth + 1) for e in expr.elts)
+        if isinstance(expr, ast.Subscript) and not isinstance(expr.slice, ast.Slice):
+            base = self.const_value(m, expr.value, depth + 1)
+            key = self.const_value(m, expr.slice, depth + 1)
+            try:
+                return base[key]
+            except Exception:
+                raise KeyError(src(expr))
+        if isinstance(expr, ast.Call):
+            # constructors over foldable data and dict views (module-level tables are often derived from one dict)
+            if isinstance(expr.func, ast.Name) and expr.func.id in ("tuple", "list", "sorted", "set", "frozenset", "dict", "len") and \
+                    len(expr.args) == 1 and not expr.keywords:
+                a = self.const_value(m, expr.args[0], depth + 1)
+                try:
+                    v = {"tuple": tuple, "list": tuple, "sorted": lambda x: tuple(sorted(x)), "set": frozenset, "frozenset": frozenset,
+                         "dict": dict, "len": len}[expr.func.id](a)
+                    return v
+                except Exception:
+                    raise KeyError(src(expr))
+            if isinstance(expr.func, ast.Attribute) and expr.func.attr in ("keys", "values", "items") and not expr.args:
+                base = self.const_value(m, expr.func.value, depth + 1)
+                if isinstance(base, dict):
+                    return tuple(getattr(base, expr.func.attr)())
+            raise KeyError(src(expr))
+        if isinstance(expr, (ast.GeneratorExp, ast.ListComp, ast.SetComp)) and len(expr.generators) == 1 and not expr.generators[0].ifs:
+            g = expr.generators[0]
+            seq = self.const_value(m, g.iter, depth + 1)
+            out = []
+            for item in seq:
+                env = {}
+                if isinstance(g.target, ast.Name):
+                    env[g.target.id] = item
+                elif isinstance(g.target, ast.Tuple) and all(isinstance(t, ast.Name) for t in g.target.elts) and len(g.target.elts) == len(item):
+                    env = {t.id: v for t, v in zip(g.target.elts, item)}
+                else:
+                    raise KeyError(src(expr))
+                if isinstance(expr.elt, ast.Name) and expr.elt.id in env:
+                    out.append(env[expr.elt.id])
+                else:
+                    raise KeyError(src(expr))
+            return tuple(out)
         if isinstance(expr, (ast.Name, ast.Attribute)):
             r = self.resolve_expr(m, expr) if isinstance(expr, ast.Attribute) else self.resolve_name(m, expr.id)
             if r and r[0] == "const":
